@@ -232,6 +232,9 @@ def make_harness(n_calls: int, first_kind: str, later_kinds: list[str] | None = 
             # ---- nothing afterwards
             if not _slots_default():
                 e.fail("option-slots-not-cleared" + (":after-exception" if raised else ""), scenario=scenario)
+            # the caller's own dict is the caller's: editing it after the call changes nothing
+            opts[SerializationOption.SKIP_CLASS] = True
+            opts[SerializationOption.SORT_KEYS] = True
             after = root.as_dict()
             if after != baseline:
                 e.fail("later-default-call-affected" + (":after-exception" if raised else ""), scenario=scenario)
@@ -328,6 +331,50 @@ def object_values_harness(e):
         scenario.update(got=repr(got)[:300], expected=repr(snap)[:300])
         e.fail("dialect-does-not-reach-nested-object", scenario=scenario)
     e.distinct((order, front))
+    return scenario
+
+
+def options_object_harness(e):
+    """The options argument is an ordinary dict of the caller: it may be passed to several calls
+    (each of which obeys it) and edited between and after them (which affects no call it was not
+    passed to)."""
+    import orjson
+    from pyoak.serialize import SerializationOption
+
+    reset_all()
+    _Hook.reset()
+    tno = e.choice(len(TREES), "tree")
+    root = build(TREES[tno])
+    baseline = copy.deepcopy(root.as_dict())
+    sk, so = e.flag("skip_class"), e.flag("sort_keys")
+    opts = {SerializationOption.SKIP_CLASS: sk, SerializationOption.SORT_KEYS: so}
+    first = e.pick(["as_dict", "to_json", "as_obj", "from_json"], "first_call")
+    second = e.pick(["as_dict", "to_json"], "second_call")
+    scenario = {"tree": describe(TREES[tno]), "options": {"skip_class": bool(sk), "sort_keys": bool(so)}, "first_call": first, "second_call": second}
+
+    def call(kind):
+        if kind == "as_dict":
+            return root.as_dict(serialization_options=opts)
+        if kind == "to_json":
+            return orjson.loads(root.to_json(serialization_options=opts))
+        if kind == "as_obj":
+            type(root).as_obj(copy.deepcopy(baseline), serialization_options=opts)
+            return None
+        type(root).from_json(orjson.dumps(baseline), serialization_options=opts)
+        return None
+
+    for which, kind in (("first", first), ("second", second)):
+        out = call(kind)
+        if out is not None:
+            err = check_output(out, bool(sk), bool(so), None, ordered=True)
+            if err:
+                scenario.update(problem=err, call=which)
+                e.fail("options-passed-again-are-ignored" if which == "second" else "nested-object-ignores-option:options-object", scenario=scenario)
+    opts[SerializationOption.SKIP_CLASS] = not sk
+    opts["ast_serialize_dialect"] = "edited by the caller afterwards"
+    if root.as_dict() != baseline or not _slots_default():
+        e.fail("later-default-call-affected:callers-dict-edited-afterwards", scenario=scenario)
+    e.distinct((tno, bool(sk), bool(so), first, second))
     return scenario
 
 
@@ -474,6 +521,7 @@ def spec(tier: str, seed: int) -> Spec:
     states = ["all-registered", "cleared", "cleared-then-new-parent-with-a-registered-source"]
     fams += [Family(f"source-registry-state-{k}", make_harness(1, k, None, [0, 3], states), variables=var + "; selector: which of the tree's sources are in the source registry") for k in (SER if tier != "quick" else ["as_dict", "to_json"])]
     fams.append(Family("user-mashumaro-dialect", user_dialect_harness, variables="selectors: tree, call"))
+    fams.append(Family("options-object-reused-and-edited", options_object_harness, variables="selectors: tree, option values, first and second call kind"))
     fams.append(Family("serializable-objects-in-untyped-properties", untyped_objects_harness, variables="selectors: held value, JSON front-end variant, sort_keys"))
     fams.append(Family("property-values-that-are-serializable-objects", object_values_harness, variables="selectors: sibling order, front-end / dialect"))
     fams.append(Family("msgpack-dialect-on-nested-objects", dialect_harness, variables="selectors: nesting depth, tagged / untagged input"))
